@@ -2213,7 +2213,14 @@ impl<'a> Socket<'a> {
         }
         if self.remote_win_len != 0 && self.timer.is_zero_window_probe() {
             tcp_trace!("stopping zero-window-probe timer");
-            self.timer.set_for_idle(cx.now(), self.keep_alive);
+            if self.remote_last_seq != self.local_seq_no {
+                // Something is still in flight (it may well have been dropped while the
+                // window was closed): make sure it gets retransmitted.
+                let rto = self.rtte.retransmission_timeout();
+                self.timer.set_for_retransmit(cx.now(), rto);
+            } else {
+                self.timer.set_for_idle(cx.now(), self.keep_alive);
+            }
         }
 
         let payload_len = payload.len();
